@@ -91,7 +91,8 @@ class State:
         self.solver.set("timeout", self.timeout_ms)
         self.pc = []
         self.heap = {}
-        self.alloc = z3.Int("alloc!0")
+        self._alloc_base = z3.Int("alloc0")
+        self._alloc_off = 0
         self.ghost = {}
         self.prefix = list(prefix or [])
         self.decisions = []
@@ -130,11 +131,18 @@ class State:
     def write(self, fld, rid, value):
         self.heap[fld] = z3.Store(self.field(fld), rid, value)
 
+    @property
+    def alloc(self):
+        """next free reference: symbolic base + concrete offset (keeps select-over-store syntactically decidable)"""
+        return self._alloc_base + self._alloc_off if self._alloc_off else self._alloc_base
+
+    @alloc.setter
+    def alloc(self, v):
+        self._alloc_base, self._alloc_off = v, 0
+
     def new_ref(self):
         r = self.alloc
-        nxt = self.fresh("alloc", INT)
-        self.assume(nxt == r + 1)
-        self.alloc = nxt
+        self._alloc_off += 1
         return r
 
     def snapshot(self):
@@ -171,6 +179,13 @@ class State:
         else:
             r = self.light.check() if f is None else self.light.check(f)
         self.solver_time += time.time() - t
+        return r != z3.unsat
+
+    def reachable(self):
+        """vacuity canary: is the current path condition satisfiable (full solver; unknown counts as reachable)"""
+        self.solver.set("timeout", 3000)
+        r = self.solver.check()
+        self.solver.set("timeout", self.timeout_ms)
         return r != z3.unsat
 
     def branch(self, conds, label=""):
@@ -223,6 +238,12 @@ class State:
         r = s1.check()
         if r == z3.unsat:
             return r, None
+        from .smt import uses_strings, solve_cvc5
+        if uses_strings(self.pc + [neg]):
+            cr = solve_cvc5(self.pc + [neg], min(self.timeout_ms, 5000))
+            if cr.status == "unsat":
+                self._last_backend = cr.backend
+                return z3.unsat, None
         self.solver.push()
         self.solver.add(neg)
         r = self.solver.check()
@@ -230,7 +251,7 @@ class State:
         self.solver.pop()
         return r, model
 
-    def check(self, name, f, kind="assert", witness_fn=None, detail=""):
+    def check(self, name, f, kind="assert", witness_fn=None, detail="", assume_after=True):
         """Emit the obligation pc => f. Afterwards f is assumed (so one failure does not cascade)."""
         t = time.time()
         sb = simplify_bool(f) if z3.is_expr(f) else (True if f is True else None)
@@ -238,28 +259,26 @@ class State:
         if sb is True:
             status, backend = "discharged", "simplifier"
         else:
+            self._last_backend = None
             r, model = self._check_staged(f)
             cand = False
             if r == z3.unsat:
                 status = "discharged"
+                backend = self._last_backend or backend
             elif r == z3.sat:
                 status = "failed"
             else:
                 # stage 3: candidate counter-model from the VC without its quantified assumptions; it is only ever
                 # used as an input for native replay (a candidate that does not replay decides nothing)
-                s3 = z3.Solver()
-                s3.set("timeout", min(self.timeout_ms, 5000))
-                for a in self.pc:
-                    if not has_quant(a):
-                        s3.add(a)
-                s3.add(z3.Not(f))
-                r3 = s3.check()
+                from .smt import candidate_model
+                r3s, m3 = candidate_model(self.pc, z3.Not(f), min(self.timeout_ms, 5000))
+                r3 = z3.sat if r3s == "sat" else (z3.unsat if r3s == "unsat" else z3.unknown)
                 if r3 == z3.sat:
-                    model, cand, status = s3.model(), True, "unknown"
-                    backend = "z3-5.1(api,relaxed-candidate)"
-                    detail = (detail + " candidate counter-model from quantifier-relaxed VC").strip()
+                    model, cand, status = m3, True, "unknown"
+                    backend = "z3-5.1(api,instantiated-candidate)"
+                    detail = (detail + " candidate counter-model from finitely instantiated VC").strip()
                 elif r3 == z3.unsat:
-                    status, backend = "discharged", "z3-5.1(api,quantifier-free core)"
+                    status, backend = "discharged", "z3-5.1(api,finite instances of the quantified assumptions)"
                 else:
                     fr = solve_fallback(self.pc + [z3.Not(f)], self.timeout_ms)
                     backend = fr.backend
@@ -278,6 +297,8 @@ class State:
         dt = time.time() - t
         self.solver_time += dt
         self.obligations.append(Obligation(name, kind, status, backend, dt, self.path_sig(), detail, wit, mtxt))
+        if not assume_after:
+            return status == "discharged"
         if status != "discharged" and z3.is_expr(f):
             self.assume(f)
         elif z3.is_expr(f) and sb is None:
